@@ -18,6 +18,7 @@ import EaselModel.Shuffle.LemmasStorage
 import EaselModel.Shuffle.LawfulRat
 import EaselModel.Shuffle.MarkovRat
 import EaselModel.Shuffle.IeeeCarrier
+import EaselModel.Shuffle.MarkovIeee
 /-! # C18 — property theorems (statements + glue only; lemmas live in Shuffle/*.lean)
 
 Every theorem quantifies over every input and every generator state `r : Rng` (hence every seed and every history of
@@ -903,6 +904,43 @@ theorem iid_support_ieee_negzero (ρ : Rounding) (p : List (Ieee ρ)) (L : Nat) 
 theorem iid_never_fatal_ieee (ρ : Rounding) (p : List (Ieee ρ)) (hp : p ≠ []) (q : ℚ)
     (hnorm : (p.foldl CNum.add CNum.zero).1 = .fin q) (L : Nat) (r : Rng) : ∃ out, (iidLoop p L r #[]).1 = some out :=
   iidLoop_total_abs p hp (ieee_div_self ρ _ q hnorm) (ieee_random_lt_one ρ) L r #[]
+
+/-- **`esl_rsq_{C,X}Markov0` never reach `esl_fatal` in ROUNDED arithmetic** (any monotone rounding, every input of at most `2^32`
+    residues, every generator state): the counts are exact integers, `count/L` is `+0.0` or in `[2^-32, 1]`, the running sums stay
+    finite and turn positive at the first non-zero entry, so `norm/norm = 1.0 > esl_random()`. `eslEINVAL` exactly on invalid input. -/
+theorem cMarkov0_einval_or_ok_ieee (ρ : Rounding) (s : Bytes) (hs : s.size ≤ 4294967296) (r : Rng) :
+    ((cMarkov0 (Ieee ρ) s r).1 = .einval ∧ s.any (fun c => !isAlpha c) = true) ∨
+    (¬ (s.any (fun c => !isAlpha c) = true) ∧ ∃ out, (cMarkov0 (Ieee ρ) s r).1 = .ok out) :=
+  cMarkov0_total_ieee ρ s hs r
+
+theorem xMarkov0_einval_or_ok_ieee (ρ : Rounding) (dsq : Bytes) (L K : Nat) (hL : L ≤ 4294967296) (hK : K ≤ 4294967296) (r : Rng) :
+    ((xMarkov0 (Ieee ρ) dsq L K r).1 = .einval ∧ (digitalCodes dsq L).any (fun c => c ≥ K) = true) ∨
+    (¬ ((digitalCodes dsq L).any (fun c => c ≥ K) = true) ∧ ∃ out, (xMarkov0 (Ieee ρ) dsq L K r).1 = .ok out) :=
+  xMarkov0_total_ieee ρ dsq L K hL hK r
+
+/-- **`esl_rsq_{C,X}Markov1` never reach `esl_fatal` in ROUNDED arithmetic** — the `markov1_bug` family closed for binary64-like
+    arithmetic, not only over ℚ: the circularised counts are exact integers, every residue of the input has a circular successor, so
+    its row sum `p0[x]` is an exact positive integer `≤ L`, its conditional row has entries in `{+0.0} ∪ [2^-32, 1]` with a positive one,
+    the computed `norm` is finite and positive, and the residue `DChoose` returns is again a residue of the input -/
+theorem cMarkov1_einval_or_ok_ieee (ρ : Rounding) (s : Bytes) (hs : s.size ≤ 4294967296) (r : Rng) :
+    ((cMarkov1 (Ieee ρ) s r).1 = .einval ∧ s.any (fun c => !isAlpha c) = true) ∨
+    (¬ (s.any (fun c => !isAlpha c) = true) ∧ ∃ out, (cMarkov1 (Ieee ρ) s r).1 = .ok out) :=
+  cMarkov1_total_ieee ρ s hs r
+
+theorem xMarkov1_einval_or_ok_ieee (ρ : Rounding) (dsq : Bytes) (L K : Nat) (hL : L + 2 ≤ dsq.size) (hLb : L ≤ 4294967296)
+    (hKb : K ≤ 4294967296) (r : Rng) :
+    ((xMarkov1 (Ieee ρ) dsq L K r).1 = .einval ∧ (digitalCodes dsq L).any (fun c => c ≥ K) = true) ∨
+    (¬ ((digitalCodes dsq L).any (fun c => c ≥ K) = true) ∧ ∃ out, (xMarkov1 (Ieee ρ) dsq L K r).1 = .ok out) :=
+  xMarkov1_total_ieee ρ dsq L K hL hLb hKb r
+
+/-- the count matrix in rounded arithmetic holds the exact integers (entry = number of circular adjacent pairs) -/
+theorem markov1_counts_exact_ieee (ρ : Rounding) (K c0 : Nat) (rest : List Nat) (hlen : (c0 :: rest).length ≤ 4294967296) (x y : Nat) :
+    ent (markov1Counts (α := Ieee ρ) K (c0 :: rest)) x y =
+      if x < K ∧ y < K then some (CNum.ofNat ((circPairs (c0 :: rest)).count (x, y))) else none :=
+  markov1Counts_ieee ρ K c0 rest hlen x y
+
+/-- non-vacuity of the size hypotheses -/
+example : (#[65, 66, 65] : Bytes).size ≤ 4294967296 := by decide
 
 /-- non-vacuity: a rounding that really rounds (half up to multiples of `2^-32`, overflow above `2^32`); `1/3` is not representable;
     a sum in it; the chooser on `[1/3, 1/3, 1/3]` (computed sum `4294967295/4294967296`, not `1`) with roll `1/2` -/
